@@ -33,7 +33,7 @@ func crashHistory(x *mc.Cell, name string, roles []Role, vouchers []datatransfer
 		cands := make([][]string, len(roles))
 		created := 0
 		create := func(i int) {
-			c, err := s.Create(roles[i], uint64(i+1), vouchers[i])
+			c, err := s.Create(roles[i], 1, vouchers[i]) // same transfer id on every channel: the roles make the channel ids differ
 			if err != nil {
 				panic(err)
 			}
